@@ -128,19 +128,20 @@ vars == <<tb, place, k, out>>
 
 TheMovie ==
   LET trks == IF place = "inter" THEN <<Track("avc", <<3, 232>>, tb), Other>> ELSE <<Track("avc", <<3, 232>>, tb)>>
-      ord  == CASE place \in {"asc", "eof", "large"} -> AscOrder(trks) [] place = "rev" -> Rev(AscOrder(trks))
+      ord  == CASE place \in {"asc", "eof", "large", "pad"} -> AscOrder(trks) [] place = "rev" -> Rev(AscOrder(trks))
                 [] place = "inter" -> InterOrder(trks)
   IN [mts |-> <<3, 232>>, tracks |-> trks, order |-> ord, extra |-> <<>>]
 
 Init == /\ tb \in AllTables
-        /\ place \in {"asc", "rev", "inter", "eof", "large"}    \* "large": the media data box has a 64-bit size header    \* "eof": the media data box is last and extends to the end of the file (size field 0)
+        /\ place \in {"asc", "rev", "inter", "eof", "large", "pad"}    \* "pad": an empty (8-byte) free box among the sample tables    \* "large": the media data box has a 64-bit size header    \* "eof": the media data box is last and extends to the end of the file (size field 0)
         /\ k = 0 /\ out = <<>>
 
 \* one reader call; the file is immutable
 Step == /\ k <= N(tb) + 2
         /\ k' = k + 1
         /\ out' = IF k = N(tb) + 2 THEN RenderPlain(TheMovie, CASE place = "eof" -> <<[op |-> "eof", path |-> <<3>>]>>
-                                                                       [] place = "large" -> <<[op |-> "large", path |-> <<3>>]>> [] OTHER -> <<>>) ELSE out
+                                                                       [] place = "large" -> <<[op |-> "large", path |-> <<3>>]>>
+                                                                       [] place = "pad" -> <<[op |-> "free", path |-> <<2, 2, 2, 3, 3>>, at |-> 2, len |-> 0, big |-> FALSE]>> [] OTHER -> <<>>) ELSE out
         /\ UNCHANGED <<tb, place>>
 Next == Step
 Spec == Init /\ [][Next]_vars
